@@ -38,6 +38,10 @@ var c12Ops = []c12Op{
 			{Code: "206", Media: []string{"application/*+json"}, Headers: []string{"X-W"}}}},
 	{ID: "PForm", Method: "post", Path: "/form", Bodies: []string{"application/x-www-form-urlencoded"},
 		Resps: []c12Resp{{Code: "200", Media: []string{"text/plain"}}, {Code: "204", Headers: []string{"X-Done"}}}},
+	// a form body whose schema is written inline under the operation (the generator adds the form tags itself), with
+	// member names that differ from their Go field names
+	{ID: "PFormIn", Method: "post", Path: "/formin", Bodies: []string{"application/x-www-form-urlencoded"},
+		Resps: []c12Resp{{Code: "204"}}},
 	{ID: "PText", Method: "post", Path: "/text", Bodies: []string{"text/plain"},
 		Resps: []c12Resp{{Code: "200", Media: []string{"application/octet-stream"}}, {Code: "202"}}},
 	{ID: "PMulti", Method: "post", Path: "/multi", Bodies: []string{"application/json", "application/x-www-form-urlencoded", "text/plain"},
@@ -75,6 +79,9 @@ func c12Doc() J {
 					content[m] = J{"schema": J{"type": "string"}}
 				case m == "application/octet-stream":
 					content[m] = J{"schema": J{"type": "string", "format": "binary"}}
+				case o.ID == "PFormIn":
+					content[m] = J{"schema": J{"type": "object", "required": []interface{}{"a", "user_name"}, "properties": J{"a": J{"type": "string"}, "n": J{"type": "integer"},
+						"user_name": J{"type": "string"}, "remember-me": J{"type": "boolean"}}}}
 				default:
 					content[m] = J{"schema": J{"$ref": "#/components/schemas/Payload"}}
 				}
@@ -344,6 +351,9 @@ func c12Body(ctx *Ctx, rows *c12Rows) error {
 					sent = "\x00\x01raw"
 				case m == "application/x-www-form-urlencoded":
 					sent = url.Values{"a": {"x y"}, "n": {"5"}}.Encode()
+					if o.ID == "PFormIn" {
+						sent = url.Values{"a": {"x y"}, "n": {"5"}, "user_name": {"u 1"}, "remember-me": {"true"}}.Encode()
+					}
 				case strings.HasPrefix(m, "multipart/"):
 					var prm string
 					prm, sent = c12Multipart("x y", "5")
@@ -688,6 +698,9 @@ func c12CheckRequest(o c12Op, media, sent string, ro map[string]interface{}) str
 		gm, _ := got.(map[string]interface{})
 		if gm == nil || fmt.Sprint(gm["A"]) != "x y" || fmt.Sprint(gm["N"]) != "5" {
 			return fmt.Sprintf("body {a:\"x y\", n:5} sent as %s arrives as %v", media, got)
+		}
+		if o.ID == "PFormIn" && (fmt.Sprint(gm["UserName"]) != "u 1" || fmt.Sprint(gm["RememberMe"]) != "true") {
+			return fmt.Sprintf("body {a:\"x y\", n:5, user_name:\"u 1\", remember-me:true} sent as %s arrives as %v", media, got)
 		}
 	}
 	return ""
